@@ -29,10 +29,11 @@ def gen_scenario(ctx, k):
     for b in cfg['boards']:
         mode = rng.choice(['absent', 'zero', 'on', 'on'])
         f = [(n, v) for (n, v) in (b['features'] or []) if n != 3]
+        # the SecAck feature may stand anywhere in the feature list
         if mode == 'zero':
-            f.append((3, 0))
+            f.insert(rng.randrange(len(f) + 1), (3, 0))
         elif mode == 'on':
-            f.append((3, rng.choice([1, 5, 255])))
+            f.insert(rng.randrange(len(f) + 1), (3, rng.choice([1, 5, 255])))
         b['features'] = f or None
         if not b.get('segments'):
             b['segments'] = [{'id': f'xs{b["id"]}_{i}', 'address': a, 'length': '1cm'} for i, a in enumerate(rng.sample(range(0, 128), rng.randrange(1, 6)))]
